@@ -4,11 +4,13 @@
   `length src` iterations; every iteration consumes input), the shape of its result (the token list
   always ends in EOF, so the parser's look-ahead never runs past a missing end marker), and that
   every error message literal of the code base is non-empty (re-extracted from the source).
-  The parser and emitter parts are decided by the error-class correspondence and the crash/hang
+  Emitter: on every typed AST the bash emitter model returns a script (no error, no out-of-range
+  access).  The parser part is decided by the error-class correspondence and the crash/hang
   oracle of the check (DESIGN.md, C13).
 -/
 import TshVerif.Props.C11
 import TshVerif.Generated.Facts
+import TshVerif.Lemmas.BashTotal
 namespace Tsh.C13
 open Tsh Tsh.Lexer Tsh.LexTables
 
@@ -43,5 +45,23 @@ theorem tokens_end_with_eof (src : Bytes) (ts : List Token) (h : tokenize src = 
 theorem errors_nonempty : Facts.errorFormatLengths.all (fun n => decide (0 < n)) = true := by decide +kernel
 
 theorem error_literals_counted : Facts.errorFormats.length = Facts.errorFormatLengths.length := by decide +kernel
+
+/-- **The bash emitter neither fails nor panics on a typed AST**: every stack access of the converter
+    (`fors[len-1]` in the guarded increment) and every index into the value lists of a
+    multi-assignment is in range, for every typed program -- the typing checker is run on every AST
+    the real parser returns. -/
+theorem bash_emitter_total_on_typed_asts (p : Program) (ht : typedProgram p = true) :
+    ∃ script, Bash.emitBash p = .ok script := by
+  obtain ⟨ls, h⟩ := Bash.compile_total p ht
+  exact ⟨Bash.renderScript ls, by unfold Bash.emitBash; rw [h]⟩
+
+/-- the emitter model itself terminates on EVERY AST (it is defined by structural recursion): a result
+    is always one of script / error / panic -/
+theorem bash_emitter_three_outcomes (p : Program) :
+    (∃ s, Bash.emitBash p = .ok s) ∨ (∃ m, Bash.emitBash p = .error m) ∨ (∃ m, Bash.emitBash p = .panic m) := by
+  cases h : Bash.emitBash p with
+  | ok s => exact Or.inl ⟨s, rfl⟩
+  | error m => exact Or.inr (Or.inl ⟨m, rfl⟩)
+  | panic m => exact Or.inr (Or.inr ⟨m, rfl⟩)
 
 end Tsh.C13
